@@ -268,7 +268,7 @@ func (sk *SpaceKeeper) PlotWS(sid string) error {
 	// registered -> ready
 	// TODO: check for existence in plotterQueue
 	if ws, ok := sk.workSpaceIndex[engine.Registered].Get(sid); ok {
-		sk.newQueuedWorkSpaceCh <- newQueuedWorkSpace(ws, false)
+		sk.enqueue(newQueuedWorkSpace(ws, false))
 		return nil
 	}
 
@@ -286,6 +286,18 @@ func (sk *SpaceKeeper) PlotWS(sid string) error {
 	// ready -> ready
 	// mining -> mining
 	return nil
+}
+
+// enqueue hands a request to the plotter. It never blocks the caller, who
+// holds the state lock: when the pending channel is full the plotter needs
+// that very lock to finish its current space and make room, so a blocking
+// send here would deadlock the caller, the plotter and every later request.
+func (sk *SpaceKeeper) enqueue(qws *queuedWorkSpace) {
+	select {
+	case sk.newQueuedWorkSpaceCh <- qws:
+	default:
+		go func() { sk.newQueuedWorkSpaceCh <- qws }()
+	}
 }
 
 // MineWS should make workSpace state conversion happen like:
@@ -307,7 +319,7 @@ func (sk *SpaceKeeper) MineWS(sid string) error {
 	// registered -> plotting -> mining
 	// TODO: check for existence in plotterQueue
 	if ws, ok := sk.workSpaceIndex[engine.Registered].Get(sid); ok {
-		sk.newQueuedWorkSpaceCh <- newQueuedWorkSpace(ws, true)
+		sk.enqueue(newQueuedWorkSpace(ws, true))
 		return nil
 	}
 
